@@ -5,17 +5,31 @@ package c20
 // record reader of Client.Fetch, nested consumer-protocol values) is part of what is judged.
 
 import (
+	"bytes"
 	"context"
 	"errors"
 	"io"
 	"time"
 
 	kafka "github.com/segmentio/kafka-go"
+	"github.com/segmentio/kafka-go/protocol"
+
+	"verif/refcodec"
 )
+
+// rawBatch: one well-formed v2 batch with a single record, encoded by the reference codec.
+var rawBatch = func() []byte {
+	rs := &refcodec.RecordSet{Batches: []refcodec.Batch{refcodec.MakeBatchV2([]refcodec.Record{{Offset: 0, Timestamp: 1, Value: []byte("x")}}, 0)}}
+	b, err := rs.Encode()
+	if err != nil {
+		panic(err)
+	}
+	return b
+}()
 
 func isTransportEntry(entry string) bool {
 	switch entry {
-	case "transport", "transport-sasl0", "transport-sasl1", "describegroups", "client":
+	case "transport", "transport-sasl0", "transport-sasl1", "describegroups", "client", "client-raw":
 		return true
 	}
 	return false
@@ -236,6 +250,14 @@ func clientCall(key int16) func(ctx context.Context, tr *kafka.Transport) error 
 		}
 	}
 	return nil
+}
+
+// rawProduceCall is Client.RawProduce with one pre-encoded (empty-valued) record set.
+func rawProduceCall(ctx context.Context, tr *kafka.Transport) error {
+	cl := &kafka.Client{Addr: kafka.TCP(brokerAddr), Transport: tr}
+	_, err := cl.RawProduce(ctx, &kafka.RawProduceRequest{Topic: "t", Partition: 0, RequiredAcks: kafka.RequireAll,
+		RawRecords: protocol.RawRecordSet{Reader: bytes.NewReader(rawBatch)}})
+	return err
 }
 
 func decodeClient(key, ver int16, stream []byte, budget time.Duration) decodeResult {
